@@ -20,7 +20,7 @@ PROPS = {
             'align_struct preconditions (struct or word with sized members; layout fits usize) are the typer\'s obligation, not verified'], 'trusted': []},
     'C08': {'units': ['U-VT', 'U-MUT', 'U-MUTW', 'U-FCALL', 'U-CONST'], 'assumptions': ['the whole-program non-interference consequence is not under contract; constant initialisers are not walked by mutability.rs; it relies on constness.rs rejecting every address, access path and call in a constant initialiser, which is proved (U-CONST); ReferenceStep::analyze of constness.rs has a latent unreachable!() that is dead code (every reference with steps is rejected before it runs): it carries a caller precondition that holds vacuously at its only call site'], 'trusted': []},
     'C12': {'units': ['U-EXPORT', 'U-KEYOFF'], 'assumptions': ['expand (import fix-point), Compiler multi-module state and split-equivalence are not under contract'], 'trusted': []},
-    'C13': {'units': ['U-CODE', 'U-LEXD', 'U-LEXA', 'U-LOC'], 'assumptions': ['rendering (ariadne), parser-side span combination beyond Location::combined_with, and run-to-run determinism (HashMap/HashSet iteration) are not under contract', 'alpha lexer spans: as under C14 (trusted model of str::split_inclusive / strip_suffix)'], 'trusted': []},
+    'C13': {'units': ['U-CODE', 'U-LEXD', 'U-LEXA', 'U-LOC', 'U-ACC'], 'assumptions': ['rendering (ariadne), parser-side span combination beyond Location::combined_with, and run-to-run determinism (HashMap/HashSet iteration) are not under contract', 'alpha lexer spans: as under C14 (trusted model of str::split_inclusive / strip_suffix)'], 'trusted': []},
     'C14': {'units': ['U-LEXD', 'U-LEXA'], 'assumptions': ['the headline equivalence of the two lexers is not stated as one theorem: each lexer is verified against its own declarative token/span/value spec',
             'alpha lexer: the line offset is proved to be the true character index of the line in the source, against a trusted exact model of str::split_inclusive (pieces concatenate to the source, none empty, every piece but the last ends in a line feed, no other line feed) and of str::strip_suffix for a char',
             'alpha lexer: keyword and punctuation tables in the spec restate the language tables (no documented list exists in the repository)'], 'trusted': []},
@@ -80,7 +80,7 @@ LEVELS = {'C07': {'text': 'PARTIAL: proof (Verus, unbounded over all value types
          'note': 'trusted: Verus+Z3, slicer/splicer, rules R3, KO1-KO3 (path/iterator shims), enumset model over a Set view, Result::clone spec, opaque AST field types with identity Clone'},
  'C13': {'text': 'PARTIAL (small): proof that every variant of Error::code() returns a code that has a section in docs/errors.md (catalogue regenerated from the headings on every run; one named obligation per variant; '
                  'the 8 codes that had no section, D7, were documented by the repair d4dc545); alpha Location::combined_with yields a forward span that covers both spans tightly and keeps the primary line/position; delta token-location '
-                 'arithmetic cannot underflow. Alpha lexer span exactness is proved under C14. Rendering (ariadne) and run-to-run determinism (HashMap/HashSet iteration) are NOT under contract.',
+                 'arithmetic cannot underflow. Alpha lexer span exactness is proved under C14. resolver::accumulate/combine and Errors::{combined_with, sorted, codes} (U-ACC): when two parts of a module fail, the reported diagnostics are the stable sort by primary location (file, line, column) of both lists, nothing lost; codes() lists the codes in order - so the order of the diagnostics does not depend on the order in which declarations were processed. Rendering (ariadne) and run-to-run determinism (HashMap/HashSet iteration) are NOT under contract.',
          'note': 'trusted: Verus+Z3, slicer/splicer, heading parser of docs/errors.md'},
  'C14': {'text': "PARTIAL: each lexer verified (Verus, unbounded over all inputs) against its own declarative spec. ALPHA (lex, lex_line, parse_integer_suffix, is_identifier_continuation): every token's span is "
                  'start..end = exactly the characters consumed for it, on the given line, spans strictly increasing; the line offset is the true character index of the line in the source (CRLF included; D9 repaired); identifiers are maximal and their text is the source '
